@@ -247,9 +247,21 @@ class VTKWriter:
     def _write_cell_fields(self, vtkFile):
         allFieldsAreEmpty = not self.cellFields
         if not allFieldsAreEmpty:
-            ncells = self.mesh.conns.shape[0]
+            # contact edges are cells too: every cell array needs a record for them
+            nContactEdges = self.contactEdges.shape[0]
+            ncells = self.mesh.conns.shape[0] + nContactEdges
+            cellFields = {}
+            for field in self.cellFields:
+                fieldRecord = self.cellFields[field]
+                for edge in range(nContactEdges):
+                    uNew = np.vstack( (fieldRecord.data,
+                                       default_values(fieldRecord.fieldType, fieldRecord.dataType)) )
+                    fieldRecord = self.VTKFieldRecord(uNew,
+                                                      fieldRecord.fieldType,
+                                                      fieldRecord.dataType)
+                cellFields[field] = fieldRecord
             vtkFile.write('CELL_DATA {}\n'.format(ncells))
-            self._write_out_all_fields_in_dict(self.cellFields, vtkFile)
+            self._write_out_all_fields_in_dict(cellFields, vtkFile)
         
         
     def _write_out_all_fields_in_dict(self, fieldDict, vtkFile):
